@@ -20,6 +20,8 @@ package verifsim
 // used by whichever task is running, and the hand-over between tasks is
 // deliberately invisible to the race detector (see sched.go).
 type Chooser struct {
+	// Seed0 is the seed an exploring chooser started from.
+	Seed0  uint64
 	state  uint64
 	replay []int32
 	rpos   int
@@ -33,7 +35,7 @@ type Chooser struct {
 
 // NewChooser returns an exploring chooser.
 func NewChooser(seed uint64) *Chooser {
-	return &Chooser{state: seed, Trace: make([]int32, 4096)}
+	return &Chooser{Seed0: seed, state: seed, Trace: make([]int32, 4096)}
 }
 
 // NewReplay returns a chooser that replays a recorded trace.
@@ -100,6 +102,22 @@ func (c *Chooser) Bool() bool { return c.Intn(2) == 1 }
 //
 //go:norace
 func (c *Chooser) OneIn(n int) bool { return c.Intn(n) == 1 && n > 1 }
+
+// ReplayValues returns the trace a replaying chooser was given.
+func (c *Chooser) ReplayValues() []int32 { return c.replay }
+
+// IsReplay reports whether the chooser replays a recorded trace.
+func (c *Chooser) IsReplay() bool { return c.isRep }
+
+// Adopt replaces the record of values drawn by vals (the choices of a run
+// that was executed elsewhere on this chooser's behalf).
+func (c *Chooser) Adopt(vals []int32) {
+	c.Trace = append([]int32(nil), vals...)
+	if len(c.Trace) < 4096 {
+		c.Trace = append(c.Trace, make([]int32, 4096-len(c.Trace))...)
+	}
+	c.N = len(vals)
+}
 
 // Values returns a copy of the values drawn so far.
 func (c *Chooser) Values() []int32 {
